@@ -1,6 +1,6 @@
 CONSTANTS Keys = {1, 2, 3} Ttls = {0, 1, 3} Advances = {1, 2} MaxEntries = 2 DefaultTtl = 2 SweepInterval = 2 MaxOps = 5 MaxTime = 6
   Dev_HitAtExpiry = FALSE Dev_RefreshKeepsExpiry = FALSE Dev_GetSlidesExpiry = FALSE Dev_NoMoveToFront = FALSE Dev_EvictFront = FALSE
-  Dev_NoSecondChance = FALSE Dev_NoEviction = FALSE Dev_SweepReapsLive = FALSE Dev_GetNoStamp = FALSE
+  Dev_NoSecondChance = FALSE Dev_NoEviction = FALSE Dev_SweepReapsLive = FALSE Dev_GetNoStamp = FALSE Dev_RecentBoundary = FALSE
 SPECIFICATION Spec
 INVARIANT HitOk
 INVARIANT MissOk
